@@ -9,6 +9,7 @@ package http2
 import (
 	"fmt"
 	"math/rand/v2"
+	"strings"
 	"testing"
 
 	"golang.org/x/net/internal/verifrt"
@@ -85,13 +86,19 @@ func vsrvC08Session(r *verifrt.R, c *verifrt.Case, sched string, directed int) {
 	d.ConnBoost = vsrvPick[int64](rng, 0, 0, 0, 1<<20, int64(1+rng.IntN(100000)))
 	d.Streams = 1 + rng.IntN(6)
 	d.Steps = 10 + rng.IntN(60)
+	if directed == 1 {
+		// large windows, so that the scheduler's own per-write budget is what limits a frame
+		d.InitWin, d.ConnBoost = 4<<20, 4<<20
+		d.MaxFrame = vsrvPick[int64](rng, 0, 16384, 16384, 20000)
+		d.Streams = 2 + rng.IntN(3)
+	}
 	c.Describe(d)
 
 	var s *vsrvSession
 	inner, outer := vsrvBubble(r.T, func() {
 		s = vsrvNewSession(vsrvConfig{Groups: vsrvGrpFlow, Sched: sched})
 		s.start()
-		vsrvC08Script(s, rng, d)
+		vsrvC08Script(s, rng, d, directed)
 		s.finish()
 	})
 	if s == nil {
@@ -118,7 +125,7 @@ func vsrvC08Session(r *verifrt.R, c *verifrt.Case, sched string, directed int) {
 
 const vsrvC08WUBudget = 1 << 29
 
-func vsrvC08Script(s *vsrvSession, rng *rand.Rand, d *vsrvC08Desc) {
+func vsrvC08Script(s *vsrvSession, rng *rand.Rand, d *vsrvC08Desc, directed int) {
 	note := func(f string, a ...any) {
 		if len(d.Script) < 200 {
 			d.Script = append(d.Script, fmt.Sprintf(f, a...))
@@ -153,6 +160,7 @@ func vsrvC08Script(s *vsrvSession, rng *rand.Rand, d *vsrvC08Desc) {
 	}
 
 	planTotal := map[uint32]int{}
+	var openedIDs []uint32
 	nextID := uint32(1)
 	opened := 0
 	open := func() {
@@ -166,11 +174,38 @@ func vsrvC08Script(s *vsrvSession, rng *rand.Rand, d *vsrvC08Desc) {
 		}
 		opened++
 		ops, total := vsrvC08Plan(rng)
+		if directed == 1 {
+			// RFC 7540 tree: the first stream is an open parent with nothing to send, the others
+			// depend on it and have large bodies (their writes are "out of order" for the scheduler)
+			if opened == 1 {
+				ops, total = []vsrvOp{{Kind: 'p'}}, 0
+			} else {
+				total = vsrvPick(rng, 100000, 300000, 1<<20)
+				ops = []vsrvOp{{Kind: 'w', N: total}}
+			}
+		}
 		planTotal[id] = total
 		d.Bodies = append(d.Bodies, total)
 		s.setPlan(id, ops)
-		s.cliHeaders(id, true, vsrvGetFields(fmt.Sprintf("/s/%d", id)))
-		note("open s=%d body=%d ops=%d", id, total, len(ops))
+		if strings.HasPrefix(d.Sched, "rfc7540") && (directed == 1 || rng.IntN(2) == 0) {
+			dep := uint32(0)
+			if len(openedIDs) > 0 && (directed == 1 || rng.IntN(3) != 0) {
+				dep = openedIDs[rng.IntN(len(openedIDs))]
+				if directed == 1 {
+					dep = openedIDs[0]
+				}
+			}
+			pr := h2ref.Priority{StreamDep: dep, Weight: uint8(rng.IntN(256)), Exclusive: directed != 1 && rng.IntN(4) == 0}
+			s.cliHeadersPrio(id, true, vsrvGetFields(fmt.Sprintf("/s/%d", id)), pr)
+			s.mu.Lock()
+			s.ev["streams_opened_with_rfc7540_priority"]++
+			s.mu.Unlock()
+			note("open s=%d body=%d ops=%d priority dep=%d weight=%d excl=%v", id, total, len(ops), pr.StreamDep, pr.Weight, pr.Exclusive)
+		} else {
+			s.cliHeaders(id, true, vsrvGetFields(fmt.Sprintf("/s/%d", id)))
+			note("open s=%d body=%d ops=%d", id, total, len(ops))
+		}
+		openedIDs = append(openedIDs, id)
 	}
 	for i, n := 0, 1+rng.IntN(d.Streams); i < n; i++ {
 		open()
@@ -383,6 +418,12 @@ func TestVerif_C08(t *testing.T) {
 	r.CasesParallel("session-rfc7540", n/5, 0, func(c *verifrt.Case) {
 		vsrvC08Session(r, c, "rfc7540", 0)
 	})
+	// the same scheduler throttling out-of-order writes (its per-write budget grows by 1 KiB per
+	// write and crosses the frame size): dependants of an open, silent parent with large bodies
+	r.CasesParallel("session-rfc7540-throttle", r.N(40, 300), 0, func(c *verifrt.Case) {
+		vsrvC08Session(r, c, "rfc7540-throttle", 1)
+	})
+	r.Require("streams_opened_with_rfc7540_priority", 50)
 	r.Require("data_frames_checked", 3000)
 	r.Require("stream_window_hit_zero", 100)
 	r.Require("stream_window_reopened_and_used", 100)
